@@ -312,6 +312,8 @@ def ev_case(fn, args):
     if fn == 'suite':
         from mesonbuild.mtest import TestHarness
         return T(TestHarness.test_in_suites(types.SimpleNamespace(suite=unlist(S2, args[0])), unlist(S2, args[1])))
+    if fn in ('reported', 'getopt'):
+        return opt_case(fn, args)
     if fn == 'judge':
         return oracle_bits(args)
     return '?'
@@ -334,6 +336,60 @@ def real_mtest_env(base, ev):
     for k in ('MALLOC_PERTURB_', 'ASAN_OPTIONS', 'MSAN_OPTIONS', 'TSAN_OPTIONS', 'UBSAN_OPTIONS'):
         env.pop(k, None)      # defaults added by SingleTestRunner.__init__ (mtest.py:1487-1505), not modelled
     return env
+
+
+# ------------------------------------------------------------------ option store
+def typed(v):
+    k, _, x = v.partition(':')
+    return {'b': lambda: x == 'true', 'i': lambda: int(x), 's': lambda: x, 'a': lambda: [y for y in x.split(',') if y]}[k]()
+
+
+def untyped(v):
+    if isinstance(v, bool):
+        return 'b:' + ('true' if v else 'false')
+    if isinstance(v, int):
+        return 'i:%d' % v
+    if isinstance(v, list):
+        return 'a:' + ','.join(v)
+    return 's:' + v
+
+
+def build_store(opts, augs):
+    from mesonbuild import options as O
+    from mesonbuild.options import OptionKey
+    store = O.OptionStore(False)
+    for e in unlist(S2, opts):
+        f = e.split(S1)
+        name, sub, val, parent = f[0], dec_opt(f[1]), typed(f[2]), dec_opt(f[3])
+        cls = {bool: O.UserBooleanOption, int: O.UserIntegerOption, str: O.UserStringOption, list: O.UserStringArrayOption}[type(val)]
+        opt = cls(name, 'd', val, yielding=parent is not None)
+        if sub is None:
+            store.add_system_option(OptionKey(name), opt)
+        else:
+            store.add_project_option(OptionKey(name, sub), opt)
+    for e in unlist(S2, augs):
+        f = e.split(S1)
+        store.augments[OptionKey(f[0], dec_opt(f[1]))] = typed(f[2])
+    return store
+
+
+def opt_case(fn, args):
+    from mesonbuild import mintro
+    from mesonbuild.options import OptionKey
+    store = build_store(args[0], args[1])
+    sp, n = args[2], args[3]
+    if fn == 'getopt':
+        try:
+            return enc_opt(untyped(store.get_value_for(OptionKey(n, sp))))
+        except KeyError:
+            return 'N'
+    lst = mintro._list_buildoptions(types.SimpleNamespace(optstore=store))
+    # the reader's rule: the entry `sp:n` if there is one, else the entry `n` (first hit)
+    for want in ([sp + ':' + n] if sp else []) + [n]:
+        for o in lst:
+            if o['name'] == want:
+                return enc_opt(untyped(o['value']))
+    return 'N'
 
 
 def safe(fn, args):
